@@ -100,6 +100,7 @@ def check_modes(out):
 def run_shard(shard, tier, h, res, known):
     rules = all_rules(tier)
     ls = e1.get_lsets(h, tier, build_lsets)["c12"]
+    h.decoy_every = 4          # 8 compilations per case: a decoy before every 4th keeps the cost in bounds
     for ri in range(shard["lo"], len(rules), shard["n"]):
         pat, macros, config = rules[ri]
         doc = make_rule_doc(pat, config)
